@@ -45,7 +45,7 @@ JudgeMap(r) ==
                          r.rtoks[FirstInexact(r.ctoks, r.rtoks, r.otoks)]>>)
      ELSE IF mustNotChain /\ ~plain
           THEN Verdict(r.rid, "C10", "reject", "no usable original map / chaining off, but the trailer is not the plain rewrite map")
-     ELSE IF ~(exact \/ plain) THEN Verdict(r.rid, "C10", "reject", "trailer is neither the composition nor the plain rewrite map")
+     ELSE IF ~(plain \/ exact) THEN Verdict(r.rid, "C10", "reject", "trailer is neither the composition nor the plain rewrite map")
      ELSE Verdict(r.rid, "C10", IF r.chain /\ use = "yes" /\ Len(r.otoks) > 0 THEN "ok" ELSE "ok0", <<r.kindref, use, Len(r.rtoks)>>)
 
 JudgeTotal(r) ==
